@@ -204,7 +204,11 @@ func (d *Decoder) readTypedMap() (interface{}, error) {
 	}
 	mType, ok := d.typMap[typ]
 	if !ok {
-		return nil, newCodecError("ReadType", "no type map for %v", typ)
+		if d.skipping == 0 {
+			return nil, newCodecError("ReadType", "no type map for %v", typ)
+		}
+		// inside a skipped value: read generically
+		mType = reflect.TypeOf(map[interface{}]interface{}{})
 	}
 
 	var mValue reflect.Value
